@@ -373,6 +373,8 @@ func verifKind(ev string) int {
 	switch ev {
 	case "ref?", "done?", "waitvisit?":
 		return verifStop
+	case "creating": // between the failed lookup and the insertion, table mutex held: seeded yield only
+		return verifStop
 	case "buildfn", "markdone", "waitreturn", "pkgbuild_begin", "mv_begin":
 		return verifStop | verifLog
 	}
@@ -390,6 +392,9 @@ func (t *verifTracer) stop(pt VerifPoint) {
 		if pt.Ev == "buildfn" && pt.Sh == 1 && t.creator > 0 && t.rng.Intn(2) == 0 {
 			d += t.rng.Intn(t.creator + 1)
 		}
+		if pt.Ev == "creating" && t.maxMicro > 0 && t.rng.Intn(2) == 0 {
+			d += 50 + t.rng.Intn(t.maxMicro+1)
+		}
 		t.ymu.Unlock()
 		if r < t.permille {
 			if d > 0 && r%2 == 0 {
@@ -401,7 +406,7 @@ func (t *verifTracer) stop(pt VerifPoint) {
 			time.Sleep(time.Duration(d) * time.Microsecond)
 		}
 	}
-	if g := VerifGate; g != nil {
+	if g := VerifGate; g != nil && pt.Ev != "creating" {
 		g(pt)
 	}
 }
